@@ -113,6 +113,12 @@ pub fn pool() -> &'static Vec<PoolEntry> {
 /// promises / context from the input, proofs = raw bytes or pool proofs with byte-level splices, verify mode).
 /// Oracle: no panic; single member: verdict == reference verdict (both directions); batch: verdict == AND of singletons.
 pub fn verify_target(data: &[u8]) -> Result<(), String> {
+    verify_target_mode(data, false)
+}
+
+/// `panic_only`: only panic-freedom is judged (C16's reading of a stored input); the comparison with the reference verdict
+/// and with the singleton verdicts belongs to C02 / C03 and is skipped.
+pub fn verify_target_mode(data: &[u8], panic_only: bool) -> Result<(), String> {
     let pool = pool();
     let mut c = Cursor::new(data);
     let n = 1 + (c.u8() % 3) as usize;
@@ -179,6 +185,9 @@ pub fn verify_target(data: &[u8]) -> Result<(), String> {
     let sts: Vec<RangeStatement<RistrettoPoint>> = members.iter().map(|m| m.1.clone()).collect();
     let proofs: Vec<RangeProof<RistrettoPoint>> = members.iter().map(|m| m.2.clone()).collect();
     let batch = guarded(|| R::verify(&mut ts, &sts, &proofs, mode)).map_err(|e| format!("{} in verify_batch (batch of {})", e, members.len()))?;
+    if panic_only {
+        return Ok(());
+    }
     // singleton verdicts, cross-checked with the reference verifier
     let mut all = true;
     for (ps, st, _, bytes) in &members {
@@ -246,12 +255,16 @@ pub fn seed_corpus() -> (Vec<Vec<u8>>, Vec<Vec<u8>>) {
 
 #[derive(Clone, Debug, serde::Serialize, serde::Deserialize)]
 pub struct CorpusCase {
+    /// judge panic-freedom only (C16)
+    #[serde(default)]
+    pub panic_only: bool,
     pub target: String,
     pub name: String,
     pub bytes: Vec<u8>,
 }
 
 pub fn corpus_items(ctx: &crate::runner::RunCtx, target: &str) -> Vec<CorpusCase> {
+    let panic_only = ctx.property == "C16";
     let mut v = vec![];
     for dir in ["vectors/corpus", "vectors/regress"] {
         let d = ctx.root.join(dir).join(target);
@@ -260,6 +273,7 @@ pub fn corpus_items(ctx: &crate::runner::RunCtx, target: &str) -> Vec<CorpusCase
         for p in names {
             if let Ok(bytes) = std::fs::read(&p) {
                 v.push(CorpusCase {
+                    panic_only,
                     target: target.to_string(),
                     name: p.file_name().map(|s| s.to_string_lossy().to_string()).unwrap_or_default(),
                     bytes,
@@ -272,8 +286,9 @@ pub fn corpus_items(ctx: &crate::runner::RunCtx, target: &str) -> Vec<CorpusCase
 
 pub fn corpus_oracle(_ctx: &crate::runner::RunCtx, c: &CorpusCase, log: &mut crate::runner::CaseLog) -> Result<(), String> {
     let r = match c.target.as_str() {
+        "decode" if c.panic_only => guarded(|| check_string::<R>(&c.bytes)).map(|_| ()),
         "decode" => decode_target(&c.bytes),
-        _ => verify_target(&c.bytes),
+        _ => verify_target_mode(&c.bytes, c.panic_only),
     };
     r.map_err(|e| format!("fuzz target `{}` oracle fails on stored input {}: {}", c.target, c.name, e))?;
     log.label(format!("corpus:{}", c.target));
